@@ -9,7 +9,9 @@ import (
 	"bytes"
 	"crypto/sha256"
 	"encoding/hex"
+	"errors"
 	"fmt"
+	"io"
 	"reflect"
 	"sort"
 
@@ -146,9 +148,54 @@ func c15BigOne(h *H, sp c15BigSpec, rows int, raw []byte) (caseLine, obs, oracle
 			bad = fmt.Sprintf("row %d (byte offset %d) of the bulk decode is %s, decoded on its own it is %s", i, i*sp.size, a, b)
 		}
 	}
-	obs = fmt.Sprintf("ok %d %s", len(idx), hex.EncodeToString(dg.Sum(nil)[:12]))
+	// the same body cut short: at every multiple of 1 MiB and of 128 KiB (+-1), and at random places.  Every cut must
+	// be rejected; the kind of the error (io.EOF / io.ErrUnexpectedEOF / other) is part of the observation, so the two
+	// builds are compared on it
+	cuts := map[int]bool{}
+	for off := 128 << 10; off < len(raw); off += 128 << 10 {
+		if off%(1<<20) == 0 || h.R.Intn(4) == 0 {
+			cuts[off-1], cuts[off], cuts[off+1] = true, true, true
+		}
+	}
+	cuts[1], cuts[len(raw)-1], cuts[len(raw)-sp.size] = true, true, true
+	for i := 0; i < 6; i++ {
+		cuts[1+h.R.Intn(len(raw)-1)] = true
+	}
+	var cl []int
+	for c := range cuts {
+		if c > 0 && c < len(raw) {
+			cl = append(cl, c)
+		}
+	}
+	sort.Ints(cl)
+	kinds := ""
+	eofCut := 0
+	for _, c := range cl {
+		col3, _ := s.build()
+		err := col3.DecodeColumn(proto.NewReader(bytes.NewReader(raw[:c])), rows)
+		switch {
+		case err == nil:
+			return caseLine, "accepted", fmt.Sprintf("FAIL:a column body of %d bytes cut after %d bytes was accepted as %d complete rows", len(raw), c, rows)
+		case errors.Is(err, io.ErrUnexpectedEOF):
+			kinds += "u"
+		case errors.Is(err, io.EOF):
+			kinds += "e"
+			if eofCut == 0 {
+				eofCut = c
+			}
+		default:
+			kinds += "o"
+		}
+	}
+	fmt.Fprintf(dg, "cuts=%v kinds=%s", cl, kinds)
+	obs = fmt.Sprintf("ok %d %s cuts=%s", len(idx), hex.EncodeToString(dg.Sum(nil)[:12]), kinds)
 	if bad != "" {
 		return caseLine, obs, "FAIL:" + bad
+	}
+	if eofCut != 0 {
+		// io.EOF is how a reader says "the input ended cleanly here"; both builds say io.ErrUnexpectedEOF for every cut
+		// strictly inside a column body, which is what a caller telling a truncated stream from a finished one relies on
+		return caseLine, obs, fmt.Sprintf("FAIL:a column body of %d bytes cut after %d bytes (inside the body) is reported as a clean end of input (io.EOF), not as a truncation", len(raw), eofCut)
 	}
 	var out proto.Buffer
 	col.EncodeColumn(&out)
